@@ -130,7 +130,9 @@ def sink_configs(tier):
         ]
         if tier == "thorough":
             base += [
-                (f"v{ver}_win2", dict(ver=ver, cap=2, kinds="K_q1q1q1q2", idmax=4, uses=1, bad=0, wrb=F, cancel=T, cids="Ids0"), ["server", "client"]),
+                # (four senders with cancellation: 10^6 states for MQTT 3.1.1; for MQTT 5 - results carry ids, more wake-up
+                #  sources - the state space did not finish in 50 minutes: three senders there)
+                (f"v{ver}_win2", dict(ver=ver, cap=2, kinds="K_q1q1q1q2" if ver == 3 else "K_q1q1q2", idmax=4 if ver == 3 else 3, uses=1, bad=0, wrb=F, cancel=T, cids="Ids0"), ["server", "client"]),
                 (f"v{ver}_all3", dict(ver=ver, cap=1, kinds="K_q1q1q2", idmax=3, uses=1, bad=1, wrb=T, cancel=T, cids="Ids0"), ["server"]),
                 (f"v{ver}_q2x3", dict(ver=ver, cap=3, kinds="K_q2q2q2", idmax=3, uses=1, bad=0, wrb=F, cancel=F, cids="Ids0"), ["server"]),
                 (f"v{ver}_mix4", dict(ver=ver, cap=2, kinds="K_mixed4", idmax=3, uses=1, bad=0, wrb=T, cancel=F, cids="Ids0"), ["client"]),
